@@ -1,31 +1,9 @@
 package srcfault
 
 import (
-	"strings"
-
 	"github.com/go-python/gpython/simrt"
+	"github.com/go-python/gpython/zzverif/gen"
 )
 
-// litFuzz builds string / bytes / number literals from fragments: escapes of
-// every kind next to ASCII, Latin-1, BMP and astral characters and invalid
-// UTF-8; number literals around the 63/64-bit and base boundaries.
-func litFuzz(r *simrt.Rand) string {
-	if r.Chance(1, 3) {
-		digits := []int{1, 7, 8, 15, 16, 17, 18, 19, 20, 21, 22, 63, 64, 65}[r.Intn(14)]
-		first := []string{"1", "7", "8", "9", "f", "F", "0"}[r.Intn(7)]
-		pre := []string{"0x", "0X", "0o", "0b", "", "0"}[r.Intn(6)]
-		body := first + strings.Repeat([]string{"0", "f", "7", "1", "9"}[r.Intn(5)], digits-1)
-		suf := []string{"", "", "j", "e5", ".5", "L", "_"}[r.Intn(7)]
-		return "x = " + pre + body + suf + "\n"
-	}
-	frag := []string{`\x`, `\x4`, `\x41`, `\u`, `\u12`, `ሴ`, `\U`, `\U0001`, `\U0001F600`, `\N{`, `\N{DASH}`, `\0`, `\777`, `\8`, `\`, "\\\n",
-		"a", "4", "z", "é", "Ā", "€", "\U0001F600", "\xff", "\xc3", "\xe2\x82", " ", "{", "}", "%", "\t"}
-	q := []string{"'", `"`, "'''", `"""`}[r.Intn(4)]
-	pre := []string{"", "", "b", "r", "rb", "u", "B", "br", "f"}[r.Intn(9)]
-	n := 1 + r.Intn(6)
-	body := ""
-	for i := 0; i < n; i++ {
-		body += frag[r.Intn(len(frag))]
-	}
-	return "s = " + pre + q + body + q + "\n"
-}
+// litFuzz: see gen.LitFuzz.
+func litFuzz(r *simrt.Rand) string { return gen.LitFuzz(r) }
